@@ -64,3 +64,40 @@ package lnwallet
 //@        arg(ourBalance) == retn(CoopCloseBalance, 0) && arg(theirBalance) == retn(CoopCloseBalance, 1) &&
 //@        arg(localDust) == lc.channelState.LocalChanCfg.DustLimit && arg(remoteDust) == lc.channelState.RemoteChanCfg.DustLimit &&
 //@        arg(ourDeliveryScript) == localDeliveryScript && arg(theirDeliveryScript) == remoteDeliveryScript
+//@
+//@ func (lc *LightningChannel) RevokeCurrentCommitment
+//@   props C06 C02
+//@   ensures result3 != nil ==> result0 == nil
+//@   ensures result3 == nil ==> result0 == retn(generateRevocation, 0) && retn(generateRevocation, 1) == nil &&
+//@           retn(UpdateCommitment, 1) == nil && lc.currentHeight == wrap(old(lc.currentHeight) + 1, 64)
+//@   site call generateRevocation: assert arg(height) == lc.currentHeight && lc.currentHeight == old(lc.currentHeight)
+//@   site call toDiskCommit: assert arg(0) == ret(tail, 1) && lc.currentHeight == wrap(old(lc.currentHeight) + 1, 64)
+//@   site call UpdateCommitment: assert arg(1) == ret(toDiskCommit) && arg(0) == lc.channelState &&
+//@        lc.currentHeight == wrap(old(lc.currentHeight) + 1, 64)
+//@
+//@ func (lc *LightningChannel) generateRevocation
+//@   props C06 C02
+//@   loop * havoc
+//@   ensures result1 == nil ==> result0 != nil && retn(AtIndex, 1, 0) == nil && retn(AtIndex, 1, 1) == nil
+//@   site call AtIndex nth 0: assert arg(1) == height && arg(0) == lc.channelState.RevocationProducer
+//@   site call AtIndex nth 1: assert arg(1) == wrap(height + 2, 64) && arg(0) == lc.channelState.RevocationProducer
+//@   site call copy: assert arg(0) == sliceof(revocationMsg.Revocation) && arg(1) == sliceof(*retn(AtIndex, 0, 0))
+//@   site call ComputeCommitmentPoint: assert arg(0) == sliceof(*retn(AtIndex, 0, 1))
+//@   site store RevokeAndAck.NextRevocationKey: assert value == ret(ComputeCommitmentPoint)
+//@
+//@ func (lc *LightningChannel) ReceiveRevocation
+//@   props C06 C02
+//@   loop * havoc
+//@   site call NewHash: assert arg(0) == sliceof(revMsg.Revocation)
+//@   site call AddNextEntry: assert arg(1) == retn(NewHash, 0) && retn(NewHash, 1) == nil &&
+//@        arg(0) == lc.channelState.RevocationStore
+//@   site call ComputeCommitmentPoint: assert arg(0) == sliceof(revMsg.Revocation)
+//@   site call IsEqual: assert arg(0) == ret(ComputeCommitmentPoint) && arg(1) == lc.channelState.RemoteCurrentRevocation &&
+//@        lc.channelState.RemoteCurrentRevocation == old(lc.channelState.RemoteCurrentRevocation)
+//@   site store OpenChannel.RemoteCurrentRevocation: assert ret(AddNextEntry) == nil && ret(IsEqual)
+//@   site store OpenChannel.RemoteNextRevocation: assert ret(AddNextEntry) == nil && ret(IsEqual) && value == revMsg.NextRevocationKey
+//@   site call AdvanceCommitChainTail: assert ret(AddNextEntry) == nil && ret(IsEqual) && arg(1) == ret(NewFwdPkg) &&
+//@        arg(0) == lc.channelState && retn(findOutputIndexesFromRemote, 2) == nil
+//@   site call advanceTail: assert ret(AdvanceCommitChainTail) == nil
+//@   site call compactLogs: assert ret(AdvanceCommitChainTail) == nil
+//@   site return nil: assert ret(AdvanceCommitChainTail) == nil && result0 == ret(NewFwdPkg) && ret(AddNextEntry) == nil && ret(IsEqual)
